@@ -274,11 +274,49 @@ def regrouping_and_copy_histories(run, rng, quick):
     return done
 
 
+def jw_swap_table(run):
+    """site swaps with the Jordan-Wigner correction are swaps too: the sign rule of the REAL `table_row_swapped_jw` on all
+    100 admitted operator pairs (both symbol styles) against the Lean model `RenoVerif.JW.swapJW` (proved to be the fermionic
+    swap conjugation in Props/C17: `jw_swap_table`)."""
+    from renormalizer.model import Op
+    from renormalizer.mps.symbolic_mpo import table_row_swapped_jw
+    from c17 import word_of
+    us = [[], ["+"], ["-"], ["+", "-"], ["-", "+"]]
+    words = us + [["Z"] + u for u in us]
+
+    def mkop(w, dof, style):
+        if not w:
+            return Op.identity(dof)
+        if style == "sigma":
+            return Op(" ".join("sigma_z" if x == "Z" else ("sigma_+" if x == "+" else "sigma_-") for x in w), dof, qn=[0] * len(w))
+        return Op(" ".join(w), dof, qn=[0] * len(w))
+    reqs, meta = [], []
+    for style in ("sigma", "short"):
+        for a in words:
+            for b in words:
+                prim = [Op.identity(0), mkop(a, 0, style), mkop(b, 1, style)]
+                op2idx = {op: i for i, op in enumerate(prim)}
+                try:
+                    row, coeff = table_row_swapped_jw([0, 1, 2, 0, 0], prim, op2idx)
+                except AssertionError:
+                    run.count("jw-swap-table:assert")
+                    continue
+                reqs.append(f"swap {word_of(a)} {word_of(b)}")
+                meta.append((dict(op1=a, op2=b, symbols=style),
+                             f"{'-' if coeff == -1 else '+'} {word_of(prim[row[1]].split_symbol)} {word_of(prim[row[2]].split_symbol)}"))
+    replies = common.run_driver("RenoVerif/Driver/C17.lean", reqs)
+    for (case, impl), rep in zip(meta, replies):
+        run.count("jw-swap-table:pairs")
+        if rep != impl:
+            run.violation("corr:table_row_swapped_jw", dict(correspondence="RenoVerif.JW.swapJW vs symbolic_mpo.table_row_swapped_jw",
+                                                            case=case, model=rep, impl=impl), no_input=True)
+
+
 def main():
     run = Run("C01", level="proof")
     quick = run.tier != "thorough"
     rng = np.random.default_rng(run.seed)
-    l1 = run.l1(["RenoVerif/Props/C01.lean", "RenoVerif/Lemmas/FormalSum.lean"])
+    l1 = run.l1(["RenoVerif/Props/C01.lean", "RenoVerif/Lemmas/FormalSum.lean", "RenoVerif/Props/C17.lean"])
     if not l1["build_ok"]:
         raise Infra("hand-written Lean library failed to build/audit: " + str(l1.get("bad")) + l1.get("log", "")[-800:])
     from renormalizer.mps import Mpo
@@ -434,6 +472,7 @@ def main():
         search_c01 = None
         run.cov["search_module"] = "absent"
     regrouping_and_copy_histories(run, rng, quick)
+    jw_swap_table(run)
     if search_c01 is not None:
         ev0, dn0 = run.cov["evaluations"], run.cov["distinct_nontrivial"]
         search_c01.search(run, rng, quick)
